@@ -39,23 +39,24 @@ def replay(case):
     return check_case(case)
 
 
-def build_case(data, mode):
+def build_case(data, mode, deep=False):
     t = Tape(data)
     if mode == 'table':
-        return gen_sent.t_table_case(t, head_modes=('left', 'right'), n_max=t.pick([3, 4, 5]), T_max=4, K_max=7)
+        return gen_sent.t_table_case(t, head_modes=('left', 'right'), n_max=t.pick([3, 4, 5, 6, 7] if deep else [3, 4, 5]),
+                                     T_max=5 if deep else 4, K_max=8 if deep else 7)
     lang = t.pick(['en', 'ja'])
-    return gen_sent.t_real_case(t, lang, n_max=5)
+    return gen_sent.t_real_case(t, lang, n_max=7 if deep else 5)
 
 
 def _shard(ctx, shard, nshards):
     native.setup()
-    for mode, n_examples, size in (('table', ctx.scale(1200, 8000), 600), ('real', ctx.scale(100, 600), 700)):
+    for mode, n_examples, size in (('table', ctx.scale(1200, 20000), 800), ('real', ctx.scale(100, 1500), 900)):
         def factory(mode=mode, n_examples=n_examples, size=size):
             @seed(runner.hseed(ctx, 1 if mode == 'table' else 101))
             @runner.hsettings(n_examples)
             @given(tapes(size))
             def test(data):
-                case = build_case(data, mode)
+                case = build_case(data, mode, deep=not ctx.quick)
                 info = {}
                 fails = check_case(case, info)
                 nontriv = info.get('n', 0) >= 2 and info.get('second', False)
